@@ -12,8 +12,18 @@ import ILV.Model.KStep
 namespace ILV.Drv.C17
 open ILV ILV.KStep
 
-def nm (s : String) : Name := s.toList
-def str (n : Name) : String := String.ofList n
+/-- wire form of names: `^xx` = one byte in hex; everything else is an ASCII byte standing for itself -/
+def decName : List Char → Name
+  | '^' :: a :: b :: rest =>
+    match hexDigit a, hexDigit b with
+    | some x, some y => Char.ofNat (x * 16 + y) :: decName rest
+    | _, _ => '^' :: decName (a :: b :: rest)
+  | c :: rest => c :: decName rest
+  | [] => []
+def nm (s : String) : Name := decName s.toList
+def safeByte (c : Char) : Bool := c.isAlphanum || c == '.' || c == '_' || c == '-' || c == ':'
+def str (n : Name) : String :=
+  String.join (n.map (fun c => if safeByte c then String.singleton c else "^" ++ byteToHex c.toNat))
 
 def parseItem (s : String) : Option Op :=
   match s.splitOn "," with
@@ -104,7 +114,7 @@ def writesOf (ops : List Op) : List (Name × Name) := ops.filterMap (fun o => ma
 def hasColonKg (ops : List Op) : Bool := ops.any (fun o => match o with | .create k => k.contains ':' | _ => false)
 def hasFileCollision (ops : List Op) : Bool :=
   let ws := writesOf ops
-  ws.any (fun a => ws.any (fun b => a != b && sanitize (shardName a.1 a.2) == sanitize (shardName b.1 b.2)))
+  ws.any (fun a => ws.any (fun b => a != b && shardFile a.1 a.2 == shardFile b.1 b.2))
 /-- a delete addressed to a KG that does not exist at that moment (sequential histories) -/
 def deleteOnMissing (ops : List Op) : Bool :=
   (ops.foldl (fun (acc : SKgs × Bool) o =>
